@@ -68,6 +68,7 @@ type Contract struct {
 	Keeps    []string // ghost states assumed untouched by opaque callees
 	Opaque   map[string]bool // callees (by name) never inlined: treated by contract or as opaque/observer calls
 	Uses     []string // manual lemmas this unit may use
+	Pure     bool     // calls are modelled as an uninterpreted function of the arguments (purity checked by the static obligation pure-funcs)
 }
 
 type SpecFunc struct {
@@ -99,12 +100,13 @@ type Axiom struct {
 }
 
 type SpecFile struct {
+	PurePkgs  []string // packages whose functions are deterministic, side-effect-free functions of their arguments (assumption A4)
 	Contracts []*Contract
 	Specs     []*SpecFunc
 	Axioms    []*Axiom
 }
 
-var kwRe = regexp.MustCompile(`^(instantiate|opaque|uses|manual|keeps|macro|ghost|func|requires|ensures|assigns|invariant|loop|behaviour|behavior|spec|axiom|lemma|decreases|inline|trusted|overflow|nopanic|props|panics|assert|rec)\b`)
+var kwRe = regexp.MustCompile(`^(purepkg|pure|instantiate|opaque|uses|manual|keeps|macro|ghost|func|requires|ensures|assigns|invariant|loop|behaviour|behavior|spec|axiom|lemma|decreases|inline|trusted|overflow|nopanic|props|panics|assert|rec)\b`)
 
 var readsRe = regexp.MustCompile(`\s+reads\s*\{([^}]*)\}\s*`)
 
@@ -187,11 +189,15 @@ func ParseSpecFile(path, pkg string) (*SpecFile, error) {
 			cur = &Contract{Key: rest, Pkg: pkg, File: path, Line: it.no, Common: newBeh("")}
 			beh = cur.Common
 			sf.Contracts = append(sf.Contracts, cur)
-		case "inline", "trusted", "overflow", "nopanic":
+		case "purepkg":
+			sf.PurePkgs = append(sf.PurePkgs, strings.Fields(rest)...)
+		case "inline", "trusted", "overflow", "nopanic", "pure":
 			if err := needBeh(); err != nil {
 				return nil, err
 			}
 			switch kw {
+			case "pure":
+				cur.Pure = true
 			case "inline":
 				cur.Inline = true
 			case "trusted":
